@@ -610,6 +610,17 @@ impl<'a> CaseRunner<'a> {
         Step::BottomUp(roots) => {
           let mut changed: Vec<u32> = self.drv.pending.iter().copied().collect();
           self.rng.shuffle(&mut changed);
+          // One build in four is also told about resources that did not change, and about some resource twice (a file
+          // watcher that over-reports): nothing may be executed on that account. Separate stream, so that the
+          // histories themselves stay what they were.
+          {
+            let mut extra = Rng::derive(self.opts.seed ^ 0x0E87_7A, self.opts.case_no.wrapping_mul(131).wrapping_add(i as u64));
+            if extra.chance(1, 4) {
+              let n_res = self.prog.n_res;
+              for _ in 0..extra.range(1, 3) { let r = extra.below(n_res) as u32; let at = extra.below(changed.len() + 1); changed.insert(at, r); }
+              self.rep.count("bottom_up_builds_told_about_unchanged_or_repeated_resources");
+            }
+          }
           let rec = self.drv.session(Some(changed), roots);
           // With tainted producers around (mixed histories, finding K1) the build may legitimately trust stale tasks;
           // then only the probe below decides, through the K1 classifier.
